@@ -178,6 +178,13 @@ def run(ctx, conc_cases=None, seed_offset=0):
     # ---- sequential: exhaustive sweep, compared as packed numbers
     data, _ = C.run_harness(binary, ['c03seq', '-maxlen', str(maxlen), '-random', '300' if tier == 'quick' else '3000', '-seed', str(seed)], pid, 'c03seq.json')
     allops = enumerate_ops(maxlen)
+    for h in data.get('hung') or []:
+        res.violations.append(dict(signature='C03/call-does-not-return', what='a call on a message did not return within the 2 s watchdog (sequential use)',
+                                   case=dict(ctor=CTOR[h['ctor']], ops=[OPN[o] for o in h['ops']])))
+    if data.get('hung'):
+        res.evaluations += len(data['hung'])
+        res.rule = 'aborted: calls block'
+        return res
     model = C.coq_eval(pid, 'sweep', HEADER, [('R_%d' % c, 'sweep %s %d' % (CTOR[c], maxlen)) for c in range(3)])
     bad = []
     for c in range(3):
